@@ -39,6 +39,7 @@ type shape struct {
 	Links       int  `json:"links"` // 0 none, 1 parent->child, 2 parent->child (child marked dead), 3 chain of 3, 4 star (one parent, two children)
 	Service     bool `json:"service"`
 	External    bool `json:"external"` // requests go to an External-C2 endpoint instead of the HTTP listener
+	Redir       bool `json:"redir"`    // the listener sits behind a redirector (profile TrustXForwardedFor); requests come with and without X-Forwarded-For
 }
 
 var shapes = []shape{
@@ -56,11 +57,15 @@ var shapes = []shape{
 	{Agents: 3, Outstanding: true, Links: 1, SendLogs: true, Downloads: true},
 	{Agents: 3, Outstanding: true, Links: 4},
 	{Agents: 3, Outstanding: true, Links: 4, Service: true},
+	{Agents: 1, Outstanding: true, Redir: true},
+	{Agents: 3, Outstanding: true, Links: 1, Redir: true, Downloads: true},
 }
 
 type reqCase struct {
 	Gen  string `json:"gen"`
 	Body string `json:"body"` // hex
+	// XFF: the X-Forwarded-For header of the request ("" = none)
+	XFF string `json:"xff,omitempty"`
 }
 
 type witness struct {
@@ -86,6 +91,7 @@ type env struct {
 	dbPath string
 	loot   string
 	broken bool
+	rec    *rig.Recorder
 	// burstOps: harness-side operations (operator tasking) run together with a burst's requests
 	burstOps []func()
 }
@@ -102,18 +108,22 @@ const svcMagic = 0x41424344
 func build(sh shape, seed int64) (*env, error) {
 	e := &env{sh: sh, pool: map[uint32][]uint32{}, nextID: 0x10000, rng: rand.New(rand.NewSource(seed))}
 	full := sh.Service || sh.External
-	r, err := rig.New(rig.Options{Full: full, Service: sh.Service, SendLogs: sh.SendLogs})
+	r, err := rig.New(rig.Options{Full: full, Service: sh.Service, SendLogs: sh.SendLogs, TrustXFF: sh.Redir})
 	if err != nil {
 		return nil, err
 	}
 	e.r = r
 	e.dbPath = r.Dir + "/data/teamserver.db"
 	e.loot = r.Dir + "/data/loot"
-	h, err := r.StartHTTP(handlers.HTTPConfig{Name: "c01"})
+	h, err := r.StartHTTP(handlers.HTTPConfig{Name: "c01", BehindRedir: sh.Redir})
 	if err != nil {
 		return nil, err
 	}
 	e.h = h
+	// every call the listener makes into the teamserver is recorded (bookkeeping included)
+	e.rec = rig.NewRecorder(r.TS)
+	e.rec.Bookkeeping = true
+	h.Teamserver = e.rec
 	e.eng = h.GinEngine
 	e.path = "/"
 	if sh.External {
@@ -654,7 +664,11 @@ func (e *env) next() reqCase {
 	default:
 		b, g = e.genPivotJobCheckin()
 	}
-	return reqCase{Gen: g, Body: hex.EncodeToString(b)}
+	rc := reqCase{Gen: g, Body: hex.EncodeToString(b)}
+	if e.sh.Redir && e.rng.Intn(2) == 0 {
+		rc.XFF = []string{"203.0.113.7", "203.0.113.7, 10.0.0.1", "", "not an address", "::1", "2001:db8::7, 203.0.113.7", ","}[e.rng.Intn(7)]
+	}
+	return rc
 }
 
 // burst sends the same kind of socket callback for ONE new socket id from several
@@ -795,9 +809,30 @@ func (e *env) exec(rc reqCase, deep bool) *verdict {
 	if deep {
 		dbBefore = e.dbRows()
 	}
-	resp := rig.Post(e.eng, e.path, body, nil)
+	var hdr map[string]string
+	if rc.XFF != "" {
+		hdr = map[string]string{"X-Forwarded-For": rc.XFF}
+	}
+	e.rec.Take()
+	resp := rig.Post(e.eng, e.path, body, hdr)
 	if resp.Panic != nil {
-		return &verdict{lib.PanicSig(resp.Panic, resp.Stack), fmt.Sprintf("handler panics on %s request (%d bytes): %v", rc.Gen, len(body), resp.Panic)}
+		return &verdict{lib.PanicSig(resp.Panic, resp.Stack), fmt.Sprintf("handler panics on %s request (%d bytes, X-Forwarded-For %q): %v", rc.Gen, len(body), rc.XFF, resp.Panic)}
+	}
+	// a request whose magic value is neither the Demon's nor a registered agent type's is
+	// nobody's traffic: beyond looking the value up, the listener has no business with the
+	// teamserver for it (not even the last-seen bookkeeping of the session its id field names)
+	if resp.Status == 404 && !e.sh.External && len(body) >= 8 {
+		if m := binary.BigEndian.Uint32(body[4:8]); m != demon.Magic && !(e.sh.Service && m == svcMagic) {
+			for _, ef := range e.rec.Take() {
+				built := false // a session of the state shape itself (a replay has it, too)
+				for _, sm := range e.sims {
+					built = built || sm.Hex() == ef.Agent
+				}
+				if ef.Call != "AgentExist" && ef.Call != "ServiceAgentExist" && built {
+					return &verdict{"rejected-request-touched-session:" + ef.Call, fmt.Sprintf("%s request with the unknown magic value %#x was answered with the decoy, yet the listener called %s for session %s", rc.Gen, m, ef.Call, ef.Agent)}
+				}
+			}
+		}
 	}
 	if resp.Status != 200 && resp.Status != 404 {
 		return &verdict{fmt.Sprintf("status:%d", resp.Status), fmt.Sprintf("%s request answered with status %d (neither protocol reply nor decoy)", rc.Gen, resp.Status)}
@@ -880,10 +915,16 @@ func run(c *lib.Ctx) {
 		}
 		e, err := build(w.Shape, w.Seed)
 		if err != nil {
-			c.Inconclusive("replay setup: " + err.Error())
+			// the witness of a setup failure is the shape itself: valid traffic cannot build it
+			c.Eval()
+			c.Violation("setup:"+lib.Classify(err.Error()), "valid traffic could not build the state shape: "+err.Error(), witness{Shape: w.Shape, Seed: w.Seed})
 			return
 		}
 		defer e.close()
+		if w.Req.Body == "" && len(w.History) == 0 {
+			c.Eval() // a setup witness, and the setup works now
+			return
+		}
 		for _, sm := range e.sims {
 			for _, id := range w.Pool[sm.Hex()] {
 				rig.TaskSimple(e.r.TS, sm.Hex(), id)
